@@ -16,8 +16,11 @@ from . import extract
 from .extract import ExtractError, VERIF
 
 GEN = os.path.join(VERIF, 'gen')
-EVID = os.path.join(VERIF, 'evidence')
-REPLAYS = os.path.join(VERIF, 'replays')
+# Evidence and replays of runs against a scratch copy (VERIF_REPO set: mutant self-test, seeded/benign experiments) must not
+# overwrite the records of the real tree.
+_SCRATCH = bool(os.environ.get('VERIF_REPO')) and os.environ.get('VERIF_REPO') != '/repo'
+EVID = os.path.join(VERIF, 'gen', 'scratch_evidence') if _SCRATCH else os.path.join(VERIF, 'evidence')
+REPLAYS = os.path.join(VERIF, 'gen', 'scratch_replays') if _SCRATCH else os.path.join(VERIF, 'replays')
 VERUS = shutil.which('verus') or '/opt/veriftools/verus/verus'
 
 OBLIGATION_MSGS = [
@@ -673,6 +676,38 @@ def check_property(pid, tier='quick', seed=0, witness_hook=None):
             print('VIOLATION property=%s replay=%s' % (pid, rp))
             vio_out.append(obl)
             exit_code = 1
+    # second back end for the loop-free integer kernels (Kani/CBMC over the full machine domain; thorough tier): a kernel
+    # relevant to this property that Kani REFUTES comes with concrete values and is a violation; 'proved' is recorded
+    kani_runs = []
+    if tier == 'thorough':
+        try:
+            reg = json.load(open(os.path.join(VERIF, 'units', 'zz_kani.witness.json')))
+            mine = [e['cmd'][-1] for e in reg if ('^' + pid) in e['label_re']]
+            for kern in mine:
+                kp = subprocess.run([sys.executable, os.path.join(VERIF, 'kani', 'kernels', 'run.py'), kern], stdout=subprocess.PIPE,
+                                    stderr=subprocess.PIPE, timeout=400)
+                res = {}
+                for ln in reversed(kp.stdout.decode('utf-8', 'replace').strip().split('\n')):
+                    if ln.startswith('{'):
+                        try:
+                            res = json.loads(ln)
+                        except ValueError:
+                            pass
+                        break
+                kani_runs.append({'kernel': kern, 'status': res.get('status') or ('refuted' if res.get('found') else res.get('error', 'unknown')),
+                                  'domain': res.get('domain'), 'found': bool(res.get('found'))})
+                if res.get('found'):
+                    rp = os.path.join(REPLAYS, '%s-kani-%s.json' % (pid, kern))
+                    os.makedirs(REPLAYS, exist_ok=True)
+                    with open(rp, 'w') as fh:
+                        json.dump({'property': pid, 'obligation': 'kani/%s' % kern, 'verifier': 'Kani 0.68 / CBMC (loop-free harness, full machine domain)',
+                                   'verifier_message': res.get('explain'), 'counterexample': res}, fh, indent=1)
+                    print('FAILED OBLIGATION kani/%s: %s' % (kern, (res.get('explain') or '')[:200]))
+                    print('VIOLATION property=%s replay=%s' % (pid, rp))
+                    vio_out.append('kani/%s' % kern)
+                    exit_code = 1
+        except Exception as e:
+            kani_runs.append({'kernel': '-', 'status': 'not run: %r' % e})
     # cross-unit links: hand-restated shim text must still equal the text of the wrapper that Verus checks in the
     # callee's unit (tools/check_links.py; the wrappers themselves are verified with their units)
     links = {'compared': 0, 'differ': 0, 'unchecked': 0}
@@ -731,6 +766,7 @@ def check_property(pid, tier='quick', seed=0, witness_hook=None):
             'undecided': undecided,
             'extra_runs': extra_runs,
             'second_backend_runs': cvc5_runs,
+            'kani_integer_kernels': kani_runs,
             'bounded_supplement': [{k: v for k, v in x.items() if k in ('kind', 'found', 'evaluations', 'explain', 'error', 'tried_archives', 'wall_s')} for x in supplement],
             'r7_bounded_checks': r7_checks,
             'mutants_expected': len([m for m in mutant_results if m['result'] != 'not-applicable']),
